@@ -133,6 +133,21 @@ class TagFC(object):
             yield self.tag(v)
 
 
+class IterFC(list):
+    """Bare fill/compute element that is ALSO iterable (a list subclass collecting what it is
+    filled with): an element with fill and compute is a fill/compute element."""
+
+    def __init__(self, tag):
+        list.__init__(self)
+        self.tag = TagD(tag)
+
+    def fill(self, value):
+        self.append(value)
+
+    def compute(self):
+        yield self.tag(("collected", len(self), gen.freeze(list(self))))
+
+
 class TagFR(object):
     """Bare fill/request element with tagged results."""
 
@@ -216,6 +231,8 @@ def explicit_branch(b):
 
 def bare_branch(b):
     kind = b["kind"]
+    if kind == "fc" and b.get("iterable"):
+        return IterFC(b["tag"])
     if kind == "fc":
         return TagFC(b["tag"], build_el(b["acc"]))
     if kind == "fr":
@@ -236,6 +253,24 @@ def real_branch(b):
 
 def frozen(vals):
     return [gen.freeze(v) for v in vals]
+
+
+def copied(obj, mode, obs):
+    """The object itself, a deep copy of it or a pickle round trip (recipe key "copy"): a
+    copied Split / Zip has the same branches, bufsize and copy_buf, and is independent of the
+    object it was copied from."""
+    if not mode:
+        return obj
+    if mode == "pickle":
+        import pickle
+        try:
+            made = pickle.loads(pickle.dumps(obj))
+            obs.count("containers_unpickled")
+            return made
+        except (pickle.PicklingError, AttributeError, TypeError):
+            pass            # a branch that cannot be pickled: copy it instead
+    obs.count("containers_deep_copied")
+    return copy.deepcopy(obj)
 
 
 # ------------------------------------------------------------------ generators
@@ -351,6 +386,8 @@ def rand_branch(rng, idx, nflow, kind=None, allow_stop=True, tagprefix="b"):
          "post": post}
     if kind == "fr":
         b["kk"] = rng.choice([1, 2, 5])
+    if kind == "fc" and rng.random() < 0.12:
+        b.update(form="bare", pre=[], post=[], iterable=1)
     return b
 
 
@@ -413,8 +450,12 @@ def cases(tier, seed):
         rng = gen.rng_for(seed, "C03rand", i)
         flow = gen.rand_flow(rng, 7)
         nb = rng.choice([0, 1, 2, 2, 3, 3, 4, 4])
-        yield {"k": "run", "branches": [rand_branch(rng, j, len(flow)) for j in range(nb)],
+        rec = {"k": "run", "branches": [rand_branch(rng, j, len(flow)) for j in range(nb)],
                "flow": flow, "copy_buf": rng.choice([1, 1, 0]), "src": "rand"}
+        x = rng.random()
+        if x < 0.3:
+            rec["copy"] = "deepcopy" if x < 0.15 else "pickle"
+        yield rec
     for i in range(NCOMMON[tier]):
         rng = gen.rng_for(seed, "C03common", i)
         flow = gen.rand_flow(rng, 7)
@@ -422,9 +463,13 @@ def cases(tier, seed):
         nb = rng.choice([1, 2, 2, 3, 3, 4])
         branches = [rand_branch(rng, j, len(flow), kind=typ, allow_stop=False)
                     for j in range(nb)]
-        yield {"k": "common", "type": typ, "branches": branches, "flow": flow,
+        rec = {"k": "common", "type": typ, "branches": branches, "flow": flow,
                "copy_buf": rng.choice([1, 0]), "ops": rand_ops(rng, len(flow), typ),
                "bufsize": rng.choice([1, 2, 1000, None])}
+        x = rng.random()
+        if x < 0.3:
+            rec["copy"] = "deepcopy" if x < 0.15 else "pickle"
+        yield rec
     for i in range(NZIP[tier]):
         rng = gen.rng_for(seed, "C03zip", i)
         flow = gen.rand_flow(rng, 7)
@@ -432,8 +477,12 @@ def cases(tier, seed):
         nb = rng.choice([1, 2, 2, 3, 3, 4])
         branches = [rand_branch(rng, j, len(flow), kind=typ, allow_stop=False)
                     for j in range(nb)]
-        yield {"k": "zip", "type": typ, "branches": branches, "flow": flow,
+        rec = {"k": "zip", "type": typ, "branches": branches, "flow": flow,
                "ops": rand_ops(rng, len(flow), typ), "fields": rng.choice([0, 0, 1])}
+        x = rng.random()
+        if x < 0.4:
+            rec["copy"] = "deepcopy" if x < 0.2 else "pickle"
+        yield rec
     for n in range(0, 8):
         for ctx in (0, 1):
             yield {"k": "empty", "n": n, "ctx": ctx}
@@ -550,6 +599,8 @@ def run_split(r, obs):
                      "Split(%r, bufsize=%r, copy_buf=%r) raised %r"
                      % ([(b["kind"], b["form"]) for b in branches], bufsize, copy_buf, e))
             continue
+        sp_orig = sp
+        sp = copied(sp, r.get("copy"), obs)
         flow = gen.build_flow(flow_r)
         try:
             real_raw = list(sp.run(iter(flow) if bi % 2 else flow))
@@ -647,6 +698,7 @@ def run_common(r, obs):
                  "Split(%r, bufsize=%r) raised %r"
                  % ([(b["kind"], b["form"]) for b in branches], r["bufsize"], e))
         return
+    sp = copied(sp, r.get("copy"), obs)
     twins = [explicit_branch(b) for b in branches]
     obs.count("common_type_runs")
     if len(branches) >= 2 and (flow_r or typ == "source"):
@@ -701,6 +753,8 @@ def run_zip(r, obs):
                  % ("tuple-fill_request-branch" if tuple_fr else "branches", type(e).__name__),
                  "Zip(%r) raised %r" % ([(b["kind"], b["form"]) for b in branches], e))
         return
+    z_orig = z
+    z = copied(z, r.get("copy"), obs)
     twins = [explicit_branch(b) for b in branches]
     # second twin set, used ONLY to name the mechanism of a disagreement: its result
     # generators are consumed the way Zip._yield consumes them (round robin, abandoned at
